@@ -93,7 +93,13 @@ func (f *Defun) Call(s *slip.Scope, args slip.List, depth int) (result slip.Obje
 	pkg.DefLambda(low, lc, fc, slip.FunctionSymbol)
 	// Calls compiled from now on must refer to the same Lambda as the calls
 	// compiled earlier so that the next redefinition reaches all of them.
-	if shared := pkg.FindLambda(low); shared != nil {
+	// A function inherited from a used package is redefined in the package
+	// that owns it so that is where the shared Lambda is registered.
+	owner := pkg
+	if fi := pkg.GetFunc(low); fi != nil && fi.Pkg != nil {
+		owner = fi.Pkg
+	}
+	if shared := owner.FindLambda(low); shared != nil {
 		lc = shared
 	}
 	if 0 < len(s.Parents()) {
